@@ -409,4 +409,90 @@ theorem init_tail_eq (self : Code3.Self) (vector s : Str) (minor : Nat)
       | none => rfl
       | some ev => rfl
 
+
+namespace Aux
+
+theorem fmt2 (a b : Str) : Py.format c!"{0}:{1}" [a, b] = a ++ ':' :: b := by
+  simp [Py.format, Py.formatAux, Py.fmtField]
+
+theorem fmtPrefix (x : Str) : Py.format c!"CVSS:3.{0}/" [x] = c!"CVSS:3." ++ x ++ c!"/" := by
+  simp [Py.format, Py.formatAux, Py.fmtField]
+
+/-- the loop body of `clean_vector` -/
+def cvBody (self : Code3.Self) (st : List Str) (metric : Str) : Option (List Str) := (do
+    let vector := st
+    let d1 ← Py.req self.original_metrics
+    let vector ← (if (Py.contains metric d1 = true) then (do
+        let d2 ← Py.req self.original_metrics
+        let t3 ← Py.getitem metric d2
+        let value_ : Str := t3
+        let vector ← (if (¬ (value_ = c!"X")) then (do
+            let vector : List Str := vector ++ [(Py.format c!"{0}:{1}" [metric, value_])]
+            pure vector) else (do
+            pure vector))
+        pure vector) else (do
+        pure vector))
+    pure vector)
+
+/-- the model's filter of `clean_vector` -/
+def cvF (orig : List (Str × Str)) (k : Str) : Option Str :=
+  match lookup k orig with
+  | some v => if v ≠ Model.V3.X then some (k ++ ':' :: v) else none
+  | none => none
+
+theorem cv_fold (self : Code3.Self) (orig : List (Str × Str)) (h1 : self.original_metrics = some orig)
+    (l : List Str) : ∀ acc : List Str,
+    List.foldlM (cvBody self) acc l = some (acc ++ l.filterMap (cvF orig)) := by
+  induction l with
+  | nil => intro acc; simp
+  | cons a rest ih =>
+    intro acc
+    rw [List.foldlM_cons]
+    cases h : lookup a orig with
+    | none => simp [cvBody, cvF, h1, hasKey, Py.getitem, h, ih]
+    | some v =>
+      by_cases hv : v = c!"X"
+      · simp [cvBody, cvF, h1, hasKey, Py.getitem, Model.V3.X, h, hv, ih]
+      · simp [cvBody, cvF, h1, hasKey, Py.getitem, Model.V3.X, h, hv, ih, fmt2]
+
+theorem strOInt_nat (n : Nat) : Py.strOInt (some (n : Int)) = natToStr n := rfl
+
+end Aux
+
+/-- `clean_vector(output_prefix)` on a constructed object -/
+theorem clean_vector_eq (self : Code3.Self) (orig : List (Str × Str)) (minor : Nat) (p : Bool)
+    (h1 : self.original_metrics = some orig) (h2 : self.minor_version = some (minor : Int)) :
+    Code3.clean_vector self p = some (Model.V3.cleanOf minor orig p) := by
+  have hf := Aux.cv_fold self orig h1 (keys Gen.V3.abbrs) []
+  unfold Code3.clean_vector Model.V3.cleanOf
+  simp only [Option.bind_eq_bind, pure]
+  change (List.foldlM (Aux.cvBody self) [] (keys Gen.V3.abbrs)).bind _ = _
+  rw [hf]
+  change _ = some ((if p = true then Model.V3.versionPrefix minor else []) ++
+    join '/' (List.filterMap (Aux.cvF orig) (keys Gen.V3.abbrs)))
+  cases p <;> simp [Aux.fmtPrefix, h2, Aux.strOInt_nat, Model.V3.versionPrefix]
+
+/-- `severities()` on a constructed object (all three scores set) -/
+theorem severities_eq (self : Code3.Self) (b t e : Rat)
+    (hb : self.base_score = some b) (ht : self.temporal_score = some t) (he : self.environmental_score = some e) :
+    Code3.severities self = some [Model.V3.sevOf b, Model.V3.sevOf t, Model.V3.sevOf e] := by
+  unfold Code3.severities
+  simp only [hb, ht, he, Model.V3.sevOf, Model.V3.r, Aux.q_0, Py.req, List.foldlM, Option.bind_eq_bind,
+    Option.some.injEq, pure]
+  by_cases b0 : b = 0 <;> by_cases b1 : b ≤ mkRat 39 10 <;> by_cases b2 : b ≤ mkRat 69 10 <;>
+    by_cases b3 : b ≤ mkRat 89 10 <;> simp [b0, b1, b2, b3] <;>
+  by_cases t0 : t = 0 <;> by_cases t1 : t ≤ mkRat 39 10 <;> by_cases t2 : t ≤ mkRat 69 10 <;>
+    by_cases t3 : t ≤ mkRat 89 10 <;> simp [t0, t1, t2, t3] <;>
+  by_cases e0 : e = 0 <;> by_cases e1 : e ≤ mkRat 39 10 <;> by_cases e2 : e ≤ mkRat 69 10 <;>
+    by_cases e3 : e ≤ mkRat 89 10 <;> simp [e0, e1, e2, e3]
+
+/-- `temporal_vector()` / `environmental_vector()` -/
+theorem temporal_vector_eq (self : Code3.Self) (o : Model.V3.Obj) (h : o.metrics = self.metrics) :
+    Code3.temporal_vector self = some o.temporalVector := by
+  simp [Code3.temporal_vector, Model.V3.Obj.temporalVector, h, Model.V3.X, Py.getD]
+
+theorem environmental_vector_eq (self : Code3.Self) (o : Model.V3.Obj) (h : o.metrics = self.metrics) :
+    Code3.environmental_vector self = some o.environmentalVector := by
+  simp [Code3.environmental_vector, Model.V3.Obj.environmentalVector, h, Model.V3.X, Py.getD]
+
 end Cvss.Props.CodeTie3
